@@ -24,11 +24,13 @@
 (*   initcall   the server invoked on_connection_init                      *)
 (*   pingcall   the server invoked on_ping                                 *)
 (*   initres    the init callback resolved (n = 1 ok, 0 error)             *)
-(*   pingres    the ping callback resolved (n = 1 ok, 0 error)             *)
+(*   pingres    the oldest suspended ping callback resolved (n = 1 ok,     *)
+(*              0 error)                                                   *)
 (*   ev / end   the operation's source stream produced an event / ended    *)
 (*   tick       the keep-alive delay elapsed                               *)
 (*   out/t      result of one poll_next:                                   *)
-(*              ack | next(id, gen) | complete(id) | pong | error          *)
+(*              ack | next(id, gen) | complete(id) | pong(n = rank of the  *)
+(*              answered ping callback, see P6) | error                    *)
 (*              | close(n = code) | none (stream ended) | pending          *)
 (*              | other (anything the protocol does not know)              *)
 (***************************************************************************)
@@ -72,9 +74,20 @@ Out(t, id, n)  == E("out", t, id, n)
 (*  P5 nothing is sent after a close                                       *)
 (*  P0 a message that the negotiated protocol does not have, or a          *)
 (*     close / connection_error without any cause                          *)
+(*  P6 (graphql-transport-ws, "Ping: ... the recipient must send a Pong as *)
+(*     soon as possible"): every ping the server took gets its own pong,   *)
+(*     in the order of the pings.  The harness's on_ping callback suspends *)
+(*     on a gate and returns the number of its call as the pong payload;   *)
+(*     a recorded pong carries n = the rank of that call among the ping    *)
+(*     callbacks not yet answered by a pong (1 = the oldest; 0 = a pong    *)
+(*     without a callback result, i.e. an unsolicited heartbeat, legal).   *)
+(*     So: a pong of rank 1 whose callback has finished is the only        *)
+(*     solicited pong allowed, and the server must not idle (return        *)
+(*     Pending) while the oldest unanswered ping's callback has finished.  *)
+(*     The legacy protocol has no ping / pong: not judged there.           *)
 (* Not judged: close reasons, payloads, the order in which two ready       *)
 (* operations are served, the close code used for a rejected init / ping   *)
-(* callback or a keep-alive expiry, whether a pong / ack is ever sent.     *)
+(* callback or a keep-alive expiry, whether an ack is ever sent.            *)
 (***************************************************************************)
 CodeOf(v) == CASE v = "BadMessage" -> 4400 [] v = "Unauthorized" -> 4401
                [] v = "Duplicate" -> 4409 [] v = "TooManyInit" -> 4429 [] OTHER -> 0
@@ -86,7 +99,7 @@ MonInit == [bad |-> "", why |-> "", at |-> 0, used |-> {},
             acks |-> 0,            \* connection_ack messages sent
             inits |-> 0,           \* connection_init messages received
             init |-> "none",       \* init callback: none | wait | ok | err | done
-            ping |-> "none",       \* ping callback: none | wait | ok | err
+            pq |-> <<>>,           \* ping callbacks invoked and not yet answered by a pong, oldest first: wait | ok | err
             ops |-> [i \in Ids |-> NoOp],   \* st: idle | live | stopped | done
             want |-> [i \in Ids |-> FALSE], \* a legal subscribe for i was received and has not run yet
             expect |-> "",         \* "" | a violation awaiting its answer | "Terminate"
@@ -134,7 +147,22 @@ MonExec(p, m, e) ==
 
 Closed(m)  == [m EXCEPT !.conn = "closeSent", !.expect = ""]
 Errored(m) == [m EXCEPT !.conn = "errorSent", !.expect = ""]
-Cause(m)   == m.timer \/ m.init = "err" \/ m.ping = "err"
+PingErr(m)   == \E i \in 1..Len(m.pq) : m.pq[i] = "err"
+PingWaits(m) == \E i \in 1..Len(m.pq) : m.pq[i] = "wait"
+Cause(m)   == m.timer \/ m.init = "err" \/ PingErr(m)
+RemoveAt(q, i) == SubSeq(q, 1, i - 1) \o SubSeq(q, i + 1, Len(q))
+\* the gate opened by `pingres` belongs to the oldest callback that is still suspended
+ResolveFirst(q, st) == IF \E i \in 1..Len(q) : q[i] = "wait"
+                       THEN LET i == CHOOSE i \in 1..Len(q) : q[i] = "wait" /\ \A j \in 1..(i - 1) : q[j] # "wait" IN [q EXCEPT ![i] = st]
+                       ELSE q
+\* P6: a pong of rank e.n (see the head of the module)
+MonPong(p, m, e) ==
+  IF e.n = 0 THEN m
+  ELSE IF p # "GWS" THEN [m EXCEPT !.pq = IF e.n <= Len(@) THEN RemoveAt(@, e.n) ELSE @]
+  ELSE IF e.n > Len(m.pq) THEN Fail(m, "P6", "pong with the result of a ping callback that is not outstanding")
+  ELSE IF e.n # 1 THEN Fail(m, "P6", "pong for a later ping while an earlier ping has no pong")
+  ELSE IF m.pq[1] # "ok" THEN Fail(m, "P6", "pong although the ping callback has not finished successfully")
+  ELSE [m EXCEPT !.pq = Tail(@)]
 
 \* the answer to a protocol violation must be the very next thing the server says
 MonAnswer(p, m, e) ==
@@ -160,13 +188,16 @@ MonOut(p, m, e) ==
           ELSE IF e.t = "close" THEN Closed(m)
           ELSE Fail(m, "P5", "output after connection_terminate"))
   ELSE CASE e.t = "pending" ->
-              IF m.init # "wait" /\ m.ping # "wait" /\ m.inbox # <<>> /\ IsViolation(p, m, Head(m.inbox))
-              THEN Fail(m, "P4", "violating message left unanswered although the server is idle") ELSE m
+              IF m.init # "wait" /\ ~PingWaits(m) /\ m.inbox # <<>> /\ IsViolation(p, m, Head(m.inbox))
+              THEN Fail(m, "P4", "violating message left unanswered although the server is idle")
+              ELSE IF p = "GWS" /\ m.pq # <<>> /\ Head(m.pq) = "ok"
+              THEN Fail(m, "P6", "the oldest unanswered ping's callback has finished but the server idles without its pong")
+              ELSE m
          [] e.t = "none" -> [m EXCEPT !.conn = "over"]
          [] e.t = "ack"  -> IF m.acks > 0 THEN Fail(m, "P1", "second connection_ack")
                             ELSE IF m.init # "ok" THEN Fail(m, "P1", "connection_ack without an accepted connection_init")
                             ELSE [m EXCEPT !.acks = 1, !.init = "done"]
-         [] e.t = "pong" -> [m EXCEPT !.ping = IF @ = "ok" THEN "none" ELSE @]
+         [] e.t = "pong" -> MonPong(p, m, e)
          [] e.t = "next" ->
               LET o == m.ops[e.id] IN
               IF m.acks = 0 THEN Fail(m, "P1", "data before connection_ack")
@@ -196,9 +227,9 @@ MonStep(p, m, e) ==
          [] e.k = "end"      -> m
          [] e.k = "tick"     -> [m EXCEPT !.timer = TRUE]
          [] e.k = "initcall" -> [m EXCEPT !.init = "wait"]
-         [] e.k = "pingcall" -> [m EXCEPT !.ping = "wait"]
+         [] e.k = "pingcall" -> [m EXCEPT !.pq = Append(@, "wait")]
          [] e.k = "initres"  -> [m EXCEPT !.init = IF e.n = 1 THEN "ok" ELSE "err"]
-         [] e.k = "pingres"  -> [m EXCEPT !.ping = IF e.n = 1 THEN "ok" ELSE "err"]
+         [] e.k = "pingres"  -> [m EXCEPT !.pq = ResolveFirst(@, IF e.n = 1 THEN "ok" ELSE "err")]
          [] e.k = "recv"     -> MonRecv(p, m, e)
          [] e.k = "exec"     -> MonExec(p, m, e)
          [] e.k = "out"      -> MonOut(p, m, e)
@@ -333,7 +364,7 @@ InitFuture(s) ==
     [] s.initFut = "err"  -> Reject([s EXCEPT !.initFut = "none"], 1002)
 PingFuture(s) ==
   CASE s.pingFut = "wait" -> Say(s, Out("pending", "", 0))
-    [] s.pingFut = "ok"   -> Say([s EXCEPT !.pingFut = "none"], Out("pong", "", 0))
+    [] s.pingFut = "ok"   -> Say([s EXCEPT !.pingFut = "none"], Out("pong", "", 1))
     [] s.pingFut = "err"  -> Reject([s EXCEPT !.pingFut = "none"], 1002)
 \* `for (id, stream) in &mut streams`: HashMap order, so any ready operation may be served
 StreamOutputs(s) ==
@@ -364,13 +395,14 @@ Spec == Init /\ [][Next]_vars /\ WF_vars(Poll) /\ WF_vars(\E ok \in BOOLEAN : In
 (* ---- the property as invariants of the model ----------------------------- *)
 TypeOK == /\ closed \in BOOLEAN /\ over \in BOOLEAN /\ acked \in BOOLEAN
           /\ initFut \in {"none", "wait", "ok", "err"} /\ pingFut \in {"none", "wait", "ok", "err"}
-          /\ Len(inbox) <= MaxQ /\ mon.bad \in {"", "P0", "P1", "P2", "P3", "P4", "P5"}
+          /\ Len(inbox) <= MaxQ /\ mon.bad \in {"", "P0", "P1", "P2", "P3", "P4", "P5", "P6"}
 P0_ProtocolAlphabet == mon.bad # "P0"
 P1_AckBeforeRun     == mon.bad # "P1"
 P2_DataIsLive       == mon.bad # "P2"
 P3_CompleteOnce     == mon.bad # "P3"
 P4_ViolationCodes   == mon.bad # "P4" /\ mon.used = {}
 P5_SilentAfterClose == mon.bad # "P5"
+P6_PongPerPing      == mon.bad # "P6"
 \* the monitor's picture of the session agrees with the model (binding sanity)
 MonitorInSync == mon.bad = "" /\ ~over =>
                    /\ mon.inbox = inbox /\ (mon.acks = 1) = acked
